@@ -461,6 +461,46 @@ namespace io {
         }
     };
 
+    // S2: keeps pulling until the stream ends; every chunk but the last is overwritten by the next call
+    class BadOverwriteGzipDecompressor final : public Decompressor {
+        gzFile m_gzfile = nullptr;
+        bool m_done = false;
+
+    public:
+        explicit BadOverwriteGzipDecompressor(const int fd) {
+            m_gzfile = ::gzdopen(fd, "rb");
+            if (!m_gzfile) {
+                throw gzip_error{"read initialization failed"};
+            }
+        }
+
+        std::string read() override {
+            std::string buffer;
+            while (!m_done) {
+                buffer.resize(input_buffer_size);
+                const int nread = ::gzread(m_gzfile, &*buffer.begin(), static_cast<unsigned int>(buffer.size()));
+                if (nread < 0) {
+                    throw gzip_error{"read failed"};
+                }
+                if (nread == 0) {
+                    m_done = true;
+                }
+                buffer.resize(static_cast<std::string::size_type>(nread));
+            }
+            return buffer;
+        }
+
+        void close() override {
+            if (m_gzfile) {
+                const int result = ::gzclose_r(m_gzfile);
+                m_gzfile = nullptr;
+                if (result != Z_OK) {
+                    throw gzip_error{"read close failed", result};
+                }
+            }
+        }
+    };
+
     // X1 / X2 / N1: single stream only, BZ_OK with zero output returns an empty chunk (today's shape of the buffer decompressors)
     class BadBzip2BufferDecompressor final : public Decompressor {
         const char* m_buffer;
@@ -564,6 +604,8 @@ void c09_positive_driver(FILE* f, const char* p, std::size_t n) {
     osmium::io::BadBzip2Decompressor d{f};
     osmium::io::BadReopenBzip2Decompressor e{f};
     osmium::io::BadBzip2BufferDecompressor g{p, n};
+    osmium::io::BadOverwriteGzipDecompressor w{0};
+    (void)w.read();
     osmium::io::BadLoopGzipBufferDecompressor l{p, n};
     (void)l.read();
     osmium::io::BadHelperBzip2Decompressor h{f};
